@@ -52,6 +52,8 @@ type genOpts struct {
 	noCurrent   bool // no currentChoice
 	extraWeight bool // allow a superfluous weight entry where the method accepts it
 	vetoHeavy   bool // ELECTRE: every criterion has q, p and v (several discordant criteria per pair)
+	decimalW    bool // weights are multiples of 0.1: sums that are equal mathematically differ by a few ulps in float64
+	nearTiedW   bool // weights differ by 1e-7 only (distinct, but inside any "reasonable" epsilon)
 }
 
 type genReq struct {
@@ -155,6 +157,9 @@ func genRequest(r *rand.Rand, o genOpts) *genReq {
 			cs.cost = true
 		}
 		c := M{"id": ids[i], "type": t}
+		if t == "gain" && method != "choquetIntegral" && r.Intn(4) == 0 {
+			delete(c, "type") // gain is the default
+		}
 		if !o.noRange && r.Intn(3) == 0 {
 			cs.hasRng, cs.lo, cs.hi = true, -24, 48
 			if r.Intn(2) == 0 {
@@ -208,8 +213,14 @@ func genRequest(r *rand.Rand, o genOpts) *genReq {
 	mp := M{}
 	w := M{}
 	used := map[float64]bool{}
-	for _, id := range ids {
+	for i, id := range ids {
 		x := genWeight(r, o.profile)
+		if o.decimalW {
+			x = float64(1+r.Intn(5)) / 10
+		}
+		if o.nearTiedW {
+			x = 2.5 + float64(i)*1e-7
+		}
 		for o.distinctW && used[x] {
 			x += 0.25
 		}
@@ -268,6 +279,9 @@ func genRequest(r *rand.Rand, o genOpts) *genReq {
 	if method == "majorityHeuristic" || method == "satisfactionHeuristic" || method == "aspectEliminationHeuristic" {
 		setSeed(r, mp, "randomSeed")
 		mp["randomAlternativesOrdering"] = !o.fixedOrder && r.Intn(2) == 0
+		if mp["randomAlternativesOrdering"] == false && r.Intn(3) == 0 {
+			delete(mp, "randomAlternativesOrdering")
+		}
 	}
 	if method == "aspectEliminationHeuristic" || method == "satisfactionHeuristic" {
 		genLevels(r, mp, ids, method == "aspectEliminationHeuristic", o.profile)
@@ -410,6 +424,9 @@ func genBias(r *rand.Rand, name string, g *genReq, o genOpts, lb, ub *int) M {
 				mn = r.Intn(mx + 1)
 			}
 			p["ratio"] = float64(r.Intn(9)) / 8
+			if r.Intn(5) == 0 {
+				delete(p, "ratio")
+			}
 			p["min"], p["max"] = mn, mx
 			*lb -= mx
 		} else {
@@ -438,10 +455,15 @@ func genBias(r *rand.Rand, name string, g *genReq, o genOpts, lb, ub *int) M {
 			mn := r.Intn(*lb + 1)
 			p["min"] = mn
 			p["max"] = mn + r.Intn(3)
+			if r.Intn(4) == 0 {
+				delete(p, "ratio")
+			}
 		}
 	case "criteriaConcealment":
 		setSeed(r, p, "randomSeed")
-		p["newCriterionScaling"] = []float64{0.5, 1, 1.5, 2, -1, -1.5}[r.Intn(6)]
+		if r.Intn(4) != 0 {
+			p["newCriterionScaling"] = []float64{0.5, 1, 1.5, 2, -1, -1.5}[r.Intn(6)]
+		}
 		refProps(r, p, o)
 		boundProps(r, p)
 		*ub++
@@ -460,9 +482,16 @@ func genBias(r *rand.Rand, name string, g *genReq, o genOpts, lb, ub *int) M {
 		if r.Intn(2) == 0 {
 			p["function"] = "const"
 			p["params"] = M{"value": float64(r.Intn(5)) / 8}
+			if r.Intn(8) == 0 {
+				p["params"] = M{} // value defaults to 0
+			}
 		} else {
 			p["function"] = "expFromZero"
-			p["params"] = M{"alpha": 0.03125, "multiplier": float64(1+r.Intn(3)) / 2, "queryNumber": r.Intn(30)}
+			fp := M{"alpha": 0.03125, "multiplier": float64(1+r.Intn(3)) / 2, "queryNumber": r.Intn(30)}
+			if r.Intn(4) == 0 { // absent parameters default to 0, i.e. no fatigue
+				delete(fp, []string{"alpha", "multiplier", "queryNumber"}[r.Intn(3)])
+			}
+			p["params"] = fp
 		}
 		boundProps(r, p)
 	case "anchoring":
@@ -486,7 +515,9 @@ func genBias(r *rand.Rand, name string, g *genReq, o genOpts, lb, ub *int) M {
 		p["gain"] = fn()
 		ap := M{}
 		if r.Intn(2) == 0 {
-			ap["applyOnNotConsidered"] = r.Intn(2) == 0
+			if r.Intn(3) != 0 {
+				ap["applyOnNotConsidered"] = r.Intn(2) == 0
+			}
 			boundProps(r, ap)
 			p["applier"] = M{"function": "inline", "params": ap}
 		} else {
@@ -512,7 +543,9 @@ func refProps(r *rand.Rand, p M, o genOpts) {
 	if t != "" {
 		p["referenceCriterionType"] = t
 	}
-	p["newCriterionImportance"] = float64(r.Intn(9)) / 8
+	if r.Intn(4) != 0 {
+		p["newCriterionImportance"] = float64(r.Intn(9)) / 8
+	}
 	setSeed(r, p, "newCriterionRandomSeed")
 }
 
